@@ -50,15 +50,19 @@ class _SQLLineageConfigLoader:
             super().__setattr__(key, value)
 
     def __call__(self, *args, **kwargs):
+        # validate everything before touching thread config, so that a rejected call changes nothing
+        if self.get_ident() in self._thread_in_context_manager:
+            raise ConfigException("SQLLineageConfig context manager is not reentrant")
+        for key in kwargs:
+            if key not in self.config.keys():
+                raise ConfigException(f"Invalid config key: {key}")
+        parsed = {
+            key: self.parse_value(value, self.config[key][0])
+            for key, value in kwargs.items()
+        }
         if self.get_ident() not in self._thread_config.keys():
             self._thread_config[self.get_ident()] = {}
-        for key, value in kwargs.items():
-            if key in self.config.keys():
-                self._thread_config[self.get_ident()][key] = self.parse_value(
-                    value, self.config[key][0]
-                )
-            else:
-                raise ConfigException(f"Invalid config key: {key}")
+        self._thread_config[self.get_ident()].update(parsed)
         return self
 
     def __enter__(self):
